@@ -55,6 +55,14 @@ CHECKS["C19"] = (
     "5/C19",
 )
 
+CHECKS["C20"] = (
+    "TriplesOps.tla + Triples.tla + TriplesGen.tla + DisjointSetOps.tla + DisjointSet.tla + DisjointSetGen.tla + TraceTriples.tla",
+    "TLC: BreakUp as a nondeterministic state machine (rebuild and uniqueness invariants) for every binary tree of the bound; BUILD/AllTrees against the set of displaying binary trees for every triple set on 4 leaves; union-find (rank + path compression) machine refining the partition on its full state graph, binary() against the two-block coarsenings under every iteration order; TLC-generated trees, triple sets and histories replayed through the routines; random 5-6 leaf inputs validated by a TLA+ trace spec",
+    "Model checking of the three mechanisms against declarative definitions (clade sets, Displays, partitions), bounded-exhaustive spec->code replay, trace validation of larger random inputs including the supertree routines.",
+    "Trusts TLC and the clade-set definitions of TriplesOps.tla; binary trees <= 5 (6) leaves, triple sets on 4 leaves exhaustively, 5-6 leaves sampled; 5 (6) elements for the disjoint sets.",
+    "5/C20",
+)
+
 NOT_YET = {}
 
 
